@@ -33,7 +33,7 @@ def run(tier, seed):
     steps = dict(clauses_for=step_clauses, n_quick=4, n_thorough=40, gen_kw=[{"closed": True}],
                  generator=maxdrive.gen, observe=maxdrive.observe)
     return opscheck.run_property(
-        "C01", tier, seed, design=opscheck.design_ops("C01", None), clauses_for=clauses_for, n_quick=9, n_thorough=90,
+        "C01", tier, seed, design=opscheck.design_ops("C01", None), clauses_for=clauses_for, n_quick=18, n_thorough=150,
         gen_kw=[{"closed": True}, {"closed": True, "nmax": 2}, {"closed": "periodic"}], parts=[steps],
         sig_extra=lambda cl, e, v: ({"periodic": bool(e["obs"].get("periodic_any"))} if cl.startswith("C01_ClosedStep") else {}),
         rule="9 grid classes x seeded non-uniform spacings x coefficient / velocity fields that vanish on the domain "
